@@ -298,10 +298,18 @@ fn items(ctx: &Ctx) -> Vec<Item> {
         // 3 writers + reader
         v.push(Item {
             name: format!("seam/{}/3w+r", h.tag()),
-            seam: Some(seam_cfg(h, 3, if q { vec![] } else { faults.clone() })),
+            seam: Some(seam_cfg(h, 3, vec![])),
             race: None,
-            bounds: b(ctx.tier.pick(2, 3), if q { 0 } else { 1 }),
+            bounds: b(ctx.tier.pick(2, 3), 0),
         });
+        if !q {
+            v.push(Item {
+                name: format!("seam/{}/3w+r/1fault", h.tag()),
+                seam: Some(seam_cfg(h, 3, faults.clone())),
+                race: None,
+                bounds: b(if small { 3 } else { 2 }, 1),
+            });
+        }
         if !q {
             v.push(Item {
                 name: format!("seam/{}/2w+r/2faults", h.tag()),
@@ -415,36 +423,44 @@ pub fn run_items(ctx: &Ctx, items: Vec<Item>, out: &mut Outcome, wall_cap: f64) 
     // spend most of their time in Lance's real commit back-off sleeps: run them side by side.
     let (ds_items, seam_items): (Vec<Item>, Vec<Item>) = items.into_iter().partition(|i| i.name.starts_with("ds/"));
     let mut results: Vec<ItemReport> = vec![];
-    for mut it in seam_items {
-        let left = wall_cap - start.elapsed().as_secs_f64();
-        if left < 1.0 {
-            skipped.push(it.name.clone());
-            continue;
-        }
-        it.bounds.wall_s = it.bounds.wall_s.min(left);
-        match run_item(&it, ctx.workers) {
-            Ok(r) => results.push(r),
-            Err(e) => vcore::machinery_error(&format!("{}: {e}", it.name)),
-        }
-    }
+    // Dataset-level items first (side by side, at most 45% of the budget), then the seam items, each
+    // with its own cap and never more than an equal share of what is left.
     {
-        let left = wall_cap - start.elapsed().as_secs_f64();
-        if left < 1.0 {
-            skipped.extend(ds_items.iter().map(|i| i.name.clone()));
-        } else {
-            let n = ds_items.len().max(1);
-            let per = (ctx.workers / 2).max(2);
-            let rs = vcore::par_map(ds_items, n.min(8), |_, mut it| {
-                it.bounds.wall_s = it.bounds.wall_s.min(left);
+        let left = (wall_cap * 0.45).min(wall_cap - start.elapsed().as_secs_f64());
+        if !ds_items.is_empty() {
+            let n = ds_items.len();
+            let par = n.min(6);
+            let per = (ctx.workers / par.max(1)).max(2);
+            let rs = vcore::par_map(ds_items, par, |_, mut it| {
+                let l = left - start.elapsed().as_secs_f64();
+                if l < 1.0 {
+                    return Err(format!("SKIPPED {}", it.name));
+                }
+                it.bounds.wall_s = it.bounds.wall_s.min(l);
                 let name = it.name.clone();
                 run_item(&it, per).map_err(|e| format!("{name}: {e}"))
             });
             for r in rs {
                 match r {
                     Ok(r) => results.push(r),
+                    Err(e) if e.starts_with("SKIPPED ") => skipped.push(e[8..].to_string()),
                     Err(e) => vcore::machinery_error(&e),
                 }
             }
+        }
+    }
+    let n_seam = seam_items.len();
+    for (i, mut it) in seam_items.into_iter().enumerate() {
+        let left = wall_cap - start.elapsed().as_secs_f64();
+        if left < 1.0 {
+            skipped.push(it.name.clone());
+            continue;
+        }
+        let share = (left / (n_seam - i) as f64).max(left.min(10.0));
+        it.bounds.wall_s = it.bounds.wall_s.min(share.max(1.0));
+        match run_item(&it, ctx.workers) {
+            Ok(r) => results.push(r),
+            Err(e) => vcore::machinery_error(&format!("{}: {e}", it.name)),
         }
     }
     for r in results {
